@@ -193,6 +193,10 @@ def run(ctx):
     if not viols:
         chk.ok(R5, q, 'delete ordering', detail='UNLINK(dup/loose) precede DELETE on all paths; single commit after the loop')
 
+    from .common import transaction_premises
+    R6 = chk.rule('C05.R6', 'transaction premises: explicit BEGIN, no autocommit, only PRAGMA journal_mode=wal', 1)
+    transaction_premises(ctx, chk, R6)
+
     return chk.finish(
         explanation=('Static typestate analysis on inlined control-flow graphs with a generic-object construction: for every reachable '
                      '(node, state) pair -- i.e. every boundary between two I/O-relevant calls, on every path and loop iteration, per flag '
